@@ -209,6 +209,15 @@ def check_C01(ctx):
     for dvd in [b"1", b"1.0", b"0.0", b"-2.5", b"10/4.0", b"0"]:
         for dvs in [b"0", b"0x0", b"3-3", b"0.0", b"z0"]:
             srcs.append(b"var z0 = 0\nprint " + dvd + b" / " + dvs + b"\n")
+    for fl in [b"0.00001", b"1e21", b"1.0/1000000", b"1e300", b"123456789012345678901.0", b"1e20", b"0.0001", b"5e-324", b"1e-7 * 3"]:
+        srcs.append(b'print "v=" + ' + fl + b'\nvar f = ' + fl + b'\nprint "" + f\ndef b { s = "x" + f }\n')
+    for rhs in [b"1", b"2.5", b'"s"', b"true", b"nil", b"inner", b"x"]:
+        for op in [b"==", b"!="]:
+            srcs.append(b"def a { x = 1\n def inner { y = 1 }\n has = inner " + op + b" " + rhs + b"\n rev = " + rhs + b" " + op + b" inner\n print has }\n")
+    for e in [b"not (x and a != 2)", b"not (x or a <= 1)", b"not (a and a >= 1)", b"not a != 2", b"not (a <= 1)", b"not not (x and a != 0)",
+              b"not (x and not a != 2)", b"(not (x and a != 2)) and 7"]:
+        for x in (b"0", b"1"):
+            srcs.append(b"var x = " + x + b"\nvar a = 2\nprint " + e + b"\ndef b { a = 0\n ok = " + e.replace(b"x", b"a") + b"\n print ok }\n")
     for lit in [b"017", b"0644", b"08", b"019", b"00", b"0", b"0x1F", b"0X1f", b"1_000", b"1e3", b"1E3", b".5", b"5.", b"0.5e-3", b"0b101", b"0o17"]:
         srcs.append(b"print " + lit + b"\ndef b { mode = " + lit + b" }\n")
     cases = [dict(id="e%d" % i, src=s) for i, s in enumerate(srcs)]
@@ -345,7 +354,15 @@ def check_C02(ctx):
              b"def a { x = 1\n def b { x = nil\n print x } }\n", b"var u\ndef a { f = u\n print f }\n",
              b"def a { f = 1 and nil\n print f\n def b { print f\n f = 2\n print f }\n print f }\n",
              b"def a { var v = 1\n var v = 2\n print v }\n", b"def a { var v = 1 }\ndef b { var v = 2\n print v }\n",
-             b"def a { def b { var v = 1 }\n var w = 2\n var v = 3\n print v + w }\n"]
+             b"def a { def b { var v = 1 }\n var w = 2\n var v = 3\n print v + w }\n",
+             b"def a { var x = 1\n def b { } }\nprint x\n", b"def a { var t = 1\n def inner { } }\ndef c { t = 5\n u = t + 1 }\n",
+             b"def a { var v = 1\n def inner { } }\nvar v = 2\nprint v\n",
+             b"def a { var n = 1\n def b { var m = 2\n def c { } }\n n = 3\n print n }\ndef d { n = 4\n print n }\n",
+             b"var t = 1\ndef marker { }\nvar t = 2\nprint t\n", b"def marker { }\nprint nope\n",
+             b"def p { var a = 1\n def e { }\n var b = 2 }\ndef q { a = 5 }\n",
+             b'var k = "top"\ndef m { }\ndef s { var k = "inner"\n print k }\nprint k\n',
+             b"def svc { port = 8000\n var port = port+1\n port = port+10\n addr = \"host:\"+port }\n",
+             b"def a { retries = 1 }\nvar retries = 5\ndef b { print retries }\ndef c { retries = 9 }\nprint retries\n"]
     # scopes with more than 240 / 255 variables: slot numbers and the count popped at the scope's end need 2 bytes
     for n in (239, 240, 241, 250, 255, 256, 300):
         decl = b"".join(b"var v%d = %d\n" % (i, i) for i in range(n))
@@ -442,6 +459,10 @@ def check_C03(ctx):
     rng = random.Random(ctx.seed * 3001 + 3)
     srcs = [blocks_program(rng) for _ in range(ctx.n(1000, 10000))]
     srcs += [blocks_program(rng, with_bind=True, inject_error=False) for _ in range(ctx.n(300, 3000))]
+    srcs += [b'def g { def tls { }\n def tls2 { conns = 100\n def burst { n = 5 } } }\ndef h { def tls { }\n def log { path = "/var/log/a" } }\n',
+             b'def a { def e { }\n def f { x = 1 } }\ndef b { def e { }\n def f { y = 2 } }\n',
+             b'def s "a" { x = 1 }\ndef s "b" { x = 2 }\ndef s "a" { x = 3 }\nbind s:all -> slice\n',
+             b'def s "a" { x = 1 }\ndef s "a" { x = 2 }\nbind s -> struct\n']
     srcs += [b'def p { def zone "example.com." {}\n def zone "example.com" {}\n def zone "" {}\n def zone "." {}\n def zone {} }\n',
              b'def p { def zone "a." { x = 1 }\n def zone "a" { x = 2 } }\ndef zone "b." {}\ndef zone "b" {}\n',
              b'def zone "master" { TYPE = "m"\n own = TYPE\n def record "www" { kind = TYPE\n label = NAME }\n NAME = "n"\n nm = NAME\n def record "x" { k = TYPE + NAME } }\n',
@@ -489,9 +510,20 @@ def check_C04(ctx):
         big = b"def limits { " + b" ".join(b"f%d = %d" % (i, i + 2) for i in range(n)) + b" }\n"
         srcs.append(big + b'def server "s" { x = 1 }\nbind server -> struct\n')
         srcs.append(big + b'def server "s" { x = 1 }\ndef server "t" {}\nbind server:last -> slice\nbind limits -> struct\n')
-    cases = [dict(id="k%d" % i, src=s) for i, s in enumerate(srcs)]
+    cases = [dict(id="k%d" % i, src=s, seq=["", ""]) for i, s in enumerate(srcs)]
     rs, missing, err = interp.run(ctx, cases)
     decide(ctx, rs, missing, err, {"out", "blocks", "binding", "log"}, "C04_bind", "bind", errclass_only=True)
+    for c, o, m in rs:
+        # every execution of a compiled program selects and warns afresh
+        for st in (o or {}).get("_seq") or []:
+            ctx.count(1)
+            if interp.go_class(o) in ("ok", "runtime") and (st["blocks"], st["binding"], interp.diag_proj(bytes.fromhex(st["log"]))) != (
+                    o["Blocks"], o["Binding"], interp.diag_proj(bytes.fromhex(o["Log"]))):
+                ctx.violation("executing the compiled program again gives a different binding / different warnings than the first run",
+                              dict(src_hex=c["src"].hex(), src=c["src"][:300].decode("utf8", "replace")), impl=st,
+                              model=dict(blocks=o["Blocks"], binding=o["Binding"], log=o["Log"]), theorem="C04_warning_iff_rebind",
+                              key="bind-rerun")
+                break
     ctx.suite_stats["bind"]["exhaustive_selector_target_space"] = len(SELS) * len(TGTS) * 5 * 2
     for c in cases[40:43]:
         ctx.sample(c["src"].decode()[:300])
